@@ -3,7 +3,12 @@
  * pipeline = [real default formatter +] real channel + recording writer (public aws_log_writer vtable).
  */
 #include <stddef.h>
-#include "vsx.h"
+#ifdef VSX_FREE
+#    define GALLOC_PASSTHROUGH 1
+#    include "vsx_free.h"
+#else
+#    include "vsx.h"
+#endif
 #include "galloc.h"
 #include <aws/common/log_channel.h>
 #include <aws/common/log_formatter.h>
